@@ -321,6 +321,9 @@ def run_kani(crate_dir, harnesses, jobs=16, timeout=3600, extra=()):
     return dict(cmd=' '.join(cmd[:8]) + (' ... (%d harnesses)' % len(harnesses)), rc=rc, out=out, wall=time.time() - t0)
 
 
+MAX_PLAYBACK = 3
+
+
 def playback_values(crate_dir, harness, timeout=900):
     """Run one failing harness again with concrete playback and return the operand values
     (one integer per kani::any(), in draw order), or None."""
@@ -411,30 +414,43 @@ def verify_unit(unit, only=None, jobs=16, keep=False, playback=True, workdir=Non
     res = dict(unit=unit, rows=sel, per_row=per, crate_dir=d, kani_cmd=run['cmd'], kani_wall_s=round(run['wall'], 1),
                checks_total=sum((e.get('nchecks') or 0) for e in per.values()),
                solver_time_s=round(sum((e.get('time') or 0) for e in per.values()), 1))
-    # counterexamples for violated rows
+    # counterexamples for violated rows: the verifier's own counterexample (concrete playback, one more CBMC run per row, serial:
+    # Kani refuses --concrete-playback with -j) for the first MAX_PLAYBACK violated rows; for the others -- typically the same
+    # helper failing under many methods -- a concrete input is searched by executing the row on the real crate with seeded
+    # operands. Either way the input is REPLAYED on the real code and only counts if the replay fails.
     if playback:
         runner = None
+        n_pb = 0
         for r, e in per.items():
             if e['outcome'] != 'violation':
                 continue
-            h = '%s::%s::proof' % (rows_mod, r)
-            sets, raw = playback_values(d, h)
             e['counterexamples'] = []
-            if sets:
-                if runner is None:
-                    try:
-                        runner = build_runner(d)
-                    except Undecided as ex:
-                        e['replay_error'] = str(ex)[:500]
-                        continue
-                seen = set()
-                for vals in sets:
-                    t = tuple(vals)
-                    if t in seen:
-                        continue
-                    seen.add(t)
-                    rc, out, err, _ = common.run_cmd([runner, 'replay', r, ','.join(str(v) for v in vals)], timeout=60)
-                    e['counterexamples'].append(dict(operands=vals, replay_exit=rc, replay_output=out.strip()[-1500:]))
+            if runner is None:
+                try:
+                    runner = build_runner(d)
+                except Undecided as ex:
+                    e['replay_error'] = str(ex)[:500]
+                    break
+            sets = []
+            source = 'kani-concrete-playback'
+            if n_pb < MAX_PLAYBACK:
+                n_pb += 1
+                h = '%s::%s::proof' % (rows_mod, r)
+                sets, raw = playback_values(d, h)
+            if not sets:
+                source = 'seeded execution of the row on the real crate'
+                rc, out, err, _ = common.run_cmd([runner, 'sample', r, str(common.seed()), '50000'], timeout=300)
+                m = re.search(r'^VIOLATED \S+ operands=\[([^\]]*)\]', out, re.M)
+                if m:
+                    sets = [[int(x) for x in m.group(1).replace(' ', '').split(',') if x != '']]
+            seen = set()
+            for vals in sets or []:
+                t = tuple(vals)
+                if t in seen:
+                    continue
+                seen.add(t)
+                rc, out, err, _ = common.run_cmd([runner, 'replay', r, ','.join(str(v) for v in vals)], timeout=60)
+                e['counterexamples'].append(dict(operands=vals, replay_exit=rc, replay_output=out.strip()[-1500:], source=source))
     if not keep and workdir is None:
         res['crate_dir'] = None
         shutil.rmtree(d, ignore_errors=True)
